@@ -320,6 +320,12 @@ func (g *gen) value(t *idlgen.RType, depth int, inKey bool) *values.Value {
 			}
 			seen[ks] = true
 			out.E = append(out.E, k, g.elem(t.Elem, depth, false))
+			if t.Key.Kind == idlgen.RStruct && len(g.s.Structs[t.Key.Sidx].Fields) == 0 {
+				// a struct without fields may be zero-size in Go: pointers to distinct zero-size objects may or may
+				// not be equal (unspecified), so map[*Empty] may collapse its keys. At most one entry.
+				g.count("map.zero-size-struct-key.capped")
+				break
+			}
 		}
 		if len(out.E) == 0 {
 			g.count("container.empty")
